@@ -70,6 +70,14 @@ def parse_type(text):
                 ts.append(ty())
             eat("]")
             return ("tuple",) + tuple(ts)
+        if name == "ufn":  # ufn[real,real]: uninterpreted function value (last type is the result)
+            eat("[")
+            ts = [ty()]
+            while peek() == ",":
+                eat()
+                ts.append(ty())
+            eat("]")
+            return ("ufn", tuple(ts[:-1]), ts[-1])
         if name == "obj":
             eat("[")
             c = eat()
